@@ -324,6 +324,25 @@ var hostileStrings = []string{"", " ", "\x00", "\xff\xfe", "=", "========", "A",
 	"HOTP-", "OCRA-1:HOTP", "OCRA-1:hotp-sha1-6:qn08-psha1-s064-t1m", "-1", "+1", "18446744073709551615", "18446744073709551616", "0x10", "1e3", "ffff", "FFFFFFFFFFFFFFFF", "fffffffffffffffff", "zz", "0",
 	"123456", "12345678", "6", "8", "10", "SHA1", "SHA256", "SHA512", "sha1", "MD5", "ſſſſſſſſ"}
 
+// urlRelations: otpauth URLs in which the label and the issuer parameter stand in every simple relation to each other
+// (equal, one a prefix of the other, the label with and without its colon and account part, empty parts): code that compares
+// the label with the issuer indexes one by the length of the other.
+var urlRelations = func() []string {
+	var out []string
+	labels := []string{"Example", "Example:", ":Example", "Example:alice", "Exam", "Example:alice:bob", "", "Example%3Aalice", "Example%3A", "E", "Examplealice"}
+	issuers := []string{"Example", "Example:", "Exam", "Examplex", "Example:alice", "", "E", "example", "Example%3A", "alice"}
+	for _, typ := range []string{"totp", "hotp"} {
+		for _, l := range labels {
+			for _, is := range issuers {
+				out = append(out, "otpauth://"+typ+"/"+l+"?secret=JBSWY3DPEHPK3PXP&issuer="+is)
+				out = append(out, "otpauth://"+typ+"/"+l+"?issuer="+is+"&secret=JBSWY3DPEHPK3PXP&digits=6&period=30&algorithm=SHA1")
+			}
+			out = append(out, "otpauth://"+typ+"/"+l+"?secret=JBSWY3DPEHPK3PXP")
+		}
+	}
+	return out
+}()
+
 func drawStr(t *rapid.T, label string) ([]byte, bool) {
 	switch rapid.IntRange(0, 13).Draw(t, label+"K") {
 	case 13: // a suite string the parser takes, made long by what it tolerates (repeated data-input tokens, a fourth ':' part of
@@ -409,6 +428,9 @@ func drawStr(t *rapid.T, label string) ([]byte, bool) {
 		}
 		return []byte(base[:sp[0]] + repl + base[sp[1]:]), true
 	case 0, 1, 2, 3:
+		if rapid.IntRange(0, 3).Draw(t, label+"HR") == 0 {
+			return []byte(rapid.SampledFrom(urlRelations).Draw(t, label+"HU")), true
+		}
 		return []byte(rapid.SampledFrom(hostileStrings).Draw(t, label+"H")), true
 	case 4:
 		return rapid.SliceOfN(rapid.Byte(), 0, 40).Draw(t, label+"R"), true
@@ -681,6 +703,13 @@ func TestC10_DamagedTexts(t *testing.T) {
 					}
 				}
 			}
+		}
+	}
+	// otpauth URLs whose label and issuer parameter stand in every simple relation to each other (see urlRelations)
+	for _, u := range urlRelations {
+		i++
+		if ev.Mine(i) {
+			c10Dmg.each(t, c10DmgCase{Op: "ParseOTPAuthURL", Text: []byte(u)})
 		}
 	}
 	c10Dmg.rec().Exhaustive()
